@@ -331,6 +331,27 @@ def _mode(repo, rep):
                   reader + "(" in t, "R17.3", f.qualname,
                   "the sniffing result is stored on the template",
                   construct="stored", where=L.where(f))
+    # every read sniffs afresh: all returning paths pass read_bytes, and
+    # nothing of an earlier read (stored type / encoding) is consulted
+    rd = repo.func("chameleon.template.BaseTemplateFile.read")
+    from .. import paths as P
+    rpaths = [p for p in P.enum_paths(rd.node.body) if p[-1][0] == "return"]
+    miss = [p for p in rpaths if not any(
+        src(c.func) == "read_bytes" for c, _ in P.calls_on_path(p))]
+    rep.check(bool(rpaths) and not miss, "R17.3", rd.qualname, "every path "
+              "of read() that returns a document has decoded it through "
+              "read_bytes (BOM, declaration, meta, default -- on every read, "
+              "also after a reload)", construct="read-always-sniffs",
+              where=L.where(rd), detail=P.path_text(miss[0], 12)
+              if miss else "")
+    stale = [src(n) for n in ast.walk(rd.node)
+             if isinstance(n, ast.Attribute) and isinstance(n.ctx, ast.Load)
+             and src(n.value) == "self"
+             and n.attr in ("content_encoding", "content_type", "__dict__")]
+    rep.check(not stale, "R17.3", rd.qualname, "read() does not consult the "
+              "encoding / type remembered from an earlier read",
+              construct="read-history-free", where=L.where(rd),
+              detail=str(stale))
     w = repo.func("chameleon.template.BaseTemplate.write")
     t = L.text(w.node)
     rep.check("body.startswith('<?xml')" in t and
